@@ -89,6 +89,12 @@ def gen_case(rng):
     else:
         labels = rng.sample(['A1', 'A3', 'A4', 'A12', 'D1', 'D2', 'D10', 'O1', 'O2', 'K4', 'Y1', 'X1'], rng.randint(3, 6))
         spec = rulesets.gen_spec(rng, with_m=rng.random() < 0.5, labels=labels, n_base=rng.randint(3, 7), max_len=4, min_groups=1, max_groups=2, max_per_group=2, pool='counts')
+        if rng.random() < 0.35:
+            # a big training list: most base structures have probabilities far below 1e-4, which repr() writes in exponent notation (6.5e-05)
+            tail = [b for b in spec['base'] if b[0] != 'M'][1:]
+            for b in tail:
+                b[1] = b[1] * rng.choice([1e-5, 3.7e-6, 1e-7, 2.5e-5])
+            spec['base'].sort(key=lambda r: -r[1])
         base = {'kind': 'synthetic', 'spec': spec}
     opts = {}
     if rng.random() < 0.7:
